@@ -191,7 +191,14 @@ def _ifaces():
   from test.scales.thrift.gen_py.hello import Hello
   from harness.gen_py_x.base import Base
   from harness.gen_py_x.derived import Derived
-  return {'hello': Hello, 'base': Base, 'derived': Derived}
+  from harness.gen_py_x.other import Other
+  return {'hello': Hello, 'base': Base, 'derived': Derived, 'other': Other}
+
+
+def mkey(iface, m):
+  """key of the method in the oracle's interface table (Idl in TBinaryWire.tla): Other's methods are named
+  like the other interfaces' methods, so their keys carry the interface."""
+  return 'other_' + m if iface == 'other' else m
 
 
 ITEM = ('struct', 'Item')
@@ -213,6 +220,17 @@ METHODS['derived'].update({
   'twice': dict(args=[('x', 'i32')], ret='i32', exc=[]),
   'drop': dict(args=[('key', 'str')], ret=None, exc=['Boom']),
 })
+# same method names as above, different argument lists and result types (gen_py_x/other)
+METHODS['other'] = {
+  'hi': dict(args=[('n', 'i32')], ret='i64', exc=[]),
+  'echo': dict(args=[('v', 'i64'), ('tag', 'str')], ret='i64', exc=[]),
+  'add': dict(args=[('a', 'str'), ('b', 'str')], ret='str', exc=[]),
+  'ping': dict(args=[('token', 'str')], ret='str', exc=[]),
+  'count': dict(args=[('upto', 'i32')], ret=('list', 'str'), exc=[]),
+  'reset': dict(args=[('name', 'str'), ('hard', 'bool')], ret='bool', exc=[]),
+  'twice': dict(args=[('x', 'i64')], ret='i64', exc=[]),
+  'drop': dict(args=[('key', 'i32'), ('count', 'i32')], ret=None, exc=[]),
+}
 
 _CPS = [0x61, 0x62, 0x7a, 0x41, 0x30, 0x20, 0x5f, 0x0a, 0x00, 0x7f,          # 1-byte (incl. NUL, DEL)
         0x80, 0xe9, 0x3b1, 0x7ff,                                              # 2-byte
@@ -279,9 +297,10 @@ def _gen_chunks(rng, n):
   return out
 
 
-def _gen_call(rng, iface):
+def _gen_call(rng, iface, m=None):
   ms = METHODS[iface]
-  m = rng.choice(sorted(ms))
+  if m is None:
+    m = rng.choice(sorted(ms))
   d = ms[m]
   pos, kw = [], []
   nargs = len(d['args'])
@@ -338,6 +357,46 @@ def cases(prop, tier, seed):
   for b in range(nb):
     iface = ['hello', 'base', 'base', 'derived'][b % 4]
     out.append({'kind': 'rpc', 'calls': [_gen_call(rng, iface) for _ in range(per)], 'reuse': len(out) % 2})
+  # interface pairs that share method names with different signatures, used one after the other through
+  # separate clients in ONE process (both orders): exposes state keyed by bare generated names
+  npairs = 24 if tier == 'quick' else 400
+  for b in range(npairs):
+    a, o = [('hello', 'other'), ('base', 'other'), ('derived', 'other')][b % 3]
+    shared = sorted(set(METHODS[a]) & set(METHODS[o]))
+    first, second = (a, o) if (b // 3) % 2 == 0 else (o, a)
+    rng.shuffle(shared)
+    calls = []
+    for m in shared[:4]:
+      calls.append(_gen_call(rng, first, m))
+      calls.append(_gen_call(rng, second, m))
+    while len(calls) < 8:
+      calls.append(_gen_call(rng, rng.choice([first, second])))
+    for c in calls:
+      if c['srv']['do'] == 'unknown':
+        c['srv'] = {'do': 'crash'}
+    out.append({'kind': 'rpc', 'calls': calls, 'reuse': b % 2, 'pair': [first, second]})
+  # concurrent groups: 2-3 calls issued on ONE client (full stack: balancer + pool, one connection per call)
+  # before any reply is served; the replies are then served in a scripted order
+  nconc = 40 if tier == 'quick' else 700
+  for b in range(nconc):
+    iface = ['hello', 'base', 'derived', 'other'][b % 4]
+    groups = []
+    for _ in range(3):
+      k = rng.choice([2, 2, 3])
+      calls = []
+      for _c in range(k):
+        c = _gen_call(rng, iface)
+        while METHODS[iface][c['m']].get('oneway') or c['srv']['do'] == 'unknown':
+          c = _gen_call(rng, iface)
+        c['stack'] = 'full'
+        c['proto'] = 'accel'
+        if rng.random() < 0.85:
+          c['cut'] = -1
+        calls.append(c)
+      order = list(range(k))
+      rng.shuffle(order)
+      groups.append({'calls': calls, 'order': order})
+    out.append({'kind': 'conc', 'iface': iface, 'groups': groups})
   return out
 
 
@@ -349,6 +408,7 @@ class FakeNet(object):
     self.sockets = []
     self.on_connect = None
     self.on_frame = None
+    self.hold = False
 
 
 class FakeSocket(object):
@@ -365,6 +425,10 @@ class FakeSocket(object):
     self.sent = bytearray()     # everything the client wrote
     self.closed = False
     self.eofs = 0
+    self.hold = bool(getattr(FakeSocket.net, 'hold', False))   # reads wait for the peer instead of seeing EOF
+    self.peer_closed = False
+    self.evt = None
+    self.last_raw = b''         # the bytes of the last complete frame the client wrote, with its prefix
     FakeSocket.net.sockets.append(self)
 
   def connect(self, addr):
@@ -376,6 +440,16 @@ class FakeSocket(object):
 
   def close(self):
     self.closed = True
+    if self.evt is not None:
+      self.evt.set()
+
+  def peer_send(self, data, close=False):
+    """the peer writes `data` (and optionally closes its side)"""
+    self.rx += data
+    if close:
+      self.peer_closed = True
+    if self.evt is not None:
+      self.evt.set()
 
   def _written(self, data):
     data = bytes(data)
@@ -386,6 +460,7 @@ class FakeSocket(object):
       if n < 0 or len(self.tx) < 4 + n:
         break
       payload = bytes(self.tx[4:4 + n])
+      self.last_raw = bytes(self.tx[:4 + n])
       del self.tx[:4 + n]
       if FakeSocket.net.on_frame:
         FakeSocket.net.on_frame(self, payload)
@@ -399,6 +474,15 @@ class FakeSocket(object):
 
   def _next(self, n):
     avail = len(self.rx) - self.rpos
+    if avail <= 0 and self.hold:
+      # concurrent mode: the peer answers later; wait (cooperatively) like a real socket would
+      from gevent.event import Event
+      if self.evt is None:
+        self.evt = Event()
+      while len(self.rx) - self.rpos <= 0 and not self.peer_closed and not self.closed:
+        self.evt.clear()
+        self.evt.wait()
+      avail = len(self.rx) - self.rpos
     if avail <= 0:
       self.eofs += 1
       if self.eofs > 50:
@@ -477,6 +561,8 @@ class _Handler(object):
           fields.append({'id': s[0], 'v': to_tv(v, s[1], s[3])})
       self._rec['args'] = fields
       srv = self._srv
+      if callable(srv):
+        srv = self._srv = srv(name, fields)      # concurrent mode: which of the outstanding calls is this?
       do = srv['do']
       if do in ('return', 'extra', 'unknown'):
         return from_tv(srv.get('v', tv_none()))
@@ -494,7 +580,8 @@ def _serve(iface_mod, chain, srv, payload, rec):
   """Run the Thrift library's generated Processor on one request payload. Returns reply payload or None."""
   from thrift.protocol.TBinaryProtocol import TBinaryProtocol
   from thrift.transport.TTransport import TMemoryBuffer
-  proc = iface_mod.Processor(_Handler(chain, srv, rec))
+  handler = _Handler(chain, srv, rec)
+  proc = iface_mod.Processor(handler)
 
   def begin(name, mtype, seqid):
     rec['m'] = [c for c in name.encode('utf8')] if isinstance(name, str) else list(name)
@@ -510,11 +597,14 @@ def _serve(iface_mod, chain, srv, payload, rec):
     rec['ok'] = 0
     rec['err'] = repr(ex)[:200]
     return None
+  srv = handler._srv
+  if callable(srv):        # the handler was never reached (e.g. the processor skipped an unknown method)
+    srv = srv(None, None)
   if srv['do'] == 'unknown':
     # the reply comes from a processor of another service, which does not know the method
     from test.scales.thrift.gen_py.hello import Hello
     from harness.gen_py_x.derived import Derived
-    other = Derived if iface_mod is Hello else Hello
+    other = Derived if (iface_mod is Hello or rec.get('m') == [104, 105]) else Hello
     ob = TMemoryBuffer()
     other.Processor(object()).process(TBinaryProtocol(TMemoryBuffer(payload)), TBinaryProtocol(ob))
   rep = ob.getvalue()
@@ -687,16 +777,187 @@ def _run_rpc(script):
     run = _one_call(loop, net, call, chunks, call['cut'], cache)
     srv = dict(ref['srv'])
     srv.pop('err', None)
-    ev.append({'e': 'Call', 'm': call['m'], 'pos': call['pos'], 'kw': call['kw'],
+    ev.append({'e': 'Call', 'm': mkey(call['iface'], call['m']), 'pos': call['pos'], 'kw': call['kw'],
                'bytes': list(ref['sent']), 'srv': srv})
     oneway = bool(METHODS[call['iface']][call['m']].get('oneway'))
     if not oneway and ref['stream'] is not None and run['stream'] is not None:
-      ev.append({'e': 'Reply', 'm': call['m'], 'stream': list(run['stream']),
+      ev.append({'e': 'Reply', 'm': mkey(call['iface'], call['m']), 'stream': list(run['stream']),
                  'same_stream': 1 if run['stream'] == ref['stream'] and run['sent'] == ref['sent'] else 0,
                  'chunks': [k for (_r, k) in run['reads']], 'out': run['out'], 'ref': ref['out']})
     meta.append({'iface': call['iface'], 'srv': call['srv']['do'], 'form': call['form'], 'stack': call['stack'],
                  'proto': call.get('proto', 'accel')})
   return {'cfg': {'kind': 'rpc'}, 'ev': ev, 'meta': meta, 'errors': [list(e[1:3]) for e in loop.errors][:3]}
+
+
+# =================================================================== concurrent calls on one client
+def _expected_fields(chain, call):
+  """argument fields of `call` as the handler will report them (only used to tell the outstanding calls of
+  a group apart when their requests arrive; the oracle does not use it)."""
+  for m in chain:
+    args_cls = getattr(m, '%s_args' % call['m'], None)
+    if args_cls is not None:
+      break
+  else:
+    return None
+  try:
+    obj = args_cls(*[from_tv(v) for v in call['pos']], **dict((x['k'], from_tv(x['v'])) for x in call['kw']))
+    return struct_tv(obj)['f']
+  except Exception:
+    return None
+
+
+def _result_spec(chain, m):
+  for mod in chain:
+    result_cls = getattr(mod, '%s_result' % m, None)
+    if result_cls is not None:
+      if result_cls.thrift_spec and result_cls.thrift_spec[0]:
+        return result_cls.thrift_spec[0]
+      return None
+  return None
+
+
+def _conc_round(loop, net, iface, group, chunked):
+  """One client (Thrift.NewBuilder stack); all calls of the group are issued before any reply is served;
+  replies are served in group['order'] (among the requests that have arrived), each on the connection its
+  request came in on.  Returns per call: raw request bytes, what the Processor decoded, reply stream, outcome."""
+  import gevent
+  iface_mod = _ifaces()[iface]
+  chain = _module_chain(iface_mod)
+  calls = group['calls']
+  n = len(calls)
+  expect = [_expected_fields(chain, c) for c in calls]
+  arrivals = []          # (sock, payload, raw) in arrival order
+  net.on_frame = lambda sock, payload: arrivals.append((sock, payload, sock.last_raw))
+  net.hold = True
+  del net.sockets[:]
+  per = [{'sent': b'', 'srv': {'ok': 0, 'm': [], 'mtype': 0, 'seq': 0, 'args': []}, 'stream': None, 'reads': [],
+          'sock': None} for _ in calls]
+  try:
+    proxy = _build_client(iface_mod, 'full')
+    loop.settle()
+    ars, res = {}, {}
+    for i, call in enumerate(calls):
+      args = [from_tv(v) for v in call['pos']]
+      kwargs = dict((x['k'], from_tv(x['v'])) for x in call['kw'])
+      if call['form'] == 'async':
+        try:
+          ars[i] = getattr(proxy, call['m'] + '_async')(*args, **kwargs)
+        except Exception as ex:
+          res[i] = ('error', ex)
+      else:
+        def runner(i=i, call=call, args=args, kwargs=kwargs):
+          try:
+            res[i] = ('value', getattr(proxy, call['m'])(*args, **kwargs))
+          except Exception as ex:
+            res[i] = ('error', ex)
+        gevent.spawn(runner)
+    loop.settle()            # every request that can be on the wire is on the wire; nothing is answered yet
+    onwire = len(arrivals)
+    matched = {}             # arrival index -> call index
+    served = set()
+
+    def serve(ai):
+      sock, payload, raw = arrivals[ai]
+      rec = {'ok': 0, 'm': [], 'mtype': 0, 'seq': 0, 'args': []}
+      pick = {}
+
+      def choose(name, fields):
+        free = [i for i in range(n) if i not in matched.values()]
+        cand = [i for i in free if name is not None and calls[i]['m'] == name and expect[i] == fields]
+        cand = cand or [i for i in free if name is not None and calls[i]['m'] == name] or free
+        pick['i'] = cand[0] if cand else None
+        return calls[cand[0]]['srv'] if cand else {'do': 'crash'}
+      rep = _serve(iface_mod, chain, choose, payload, rec)
+      i = pick.get('i')
+      if i is None:
+        return
+      matched[ai] = i
+      rec.pop('err', None)
+      per[i]['sent'] = raw
+      per[i]['srv'] = rec
+      per[i]['sock'] = sock
+      if rep is None:
+        per[i]['stream'] = b''
+        sock.peer_send(b'', close=True)
+        return
+      stream = struct.pack('!i', len(rep)) + rep
+      cut = calls[i]['cut']
+      if cut >= 0:
+        stream = stream[:min(cut, len(stream))]
+      per[i]['stream'] = stream
+      if chunked:
+        sock.script = _gen_chunks(random.Random(calls[i]['chunkseed']), max(len(stream), 1))
+      else:
+        sock.script = None
+      sock.sidx = 0
+      sock.peer_send(stream, close=(cut >= 0))
+
+    order = list(group['order'])
+    for _round in range(4 * n + 4):
+      todo = [ai for ai in range(len(arrivals)) if ai not in served]
+      if not todo:
+        break
+      # the scripted order picks among the requests that have arrived and are not yet answered
+      k = order.pop(0) if order else 0
+      ai = todo[k % len(todo)]
+      served.add(ai)
+      serve(ai)
+      loop.settle()
+    # a call whose reply never completes is ended by its timeout
+    if any((i in ars and not ars[i].ready()) or (i not in ars and i not in res) for i in range(n)):
+      loop.run_for(11.0)
+      loop.settle()
+    for i, call in enumerate(calls):
+      if i in ars:
+        ar = ars[i]
+        if not ar.ready():
+          o = ('pending', None)
+        elif ar.exception is not None and not ar.successful():
+          o = ('error', ar.exception)
+        else:
+          o = ('value', ar.value)
+      else:
+        o = res.get(i, ('pending', None))
+      per[i]['out'] = _outcome(o[0], o[1], _result_spec(chain, call['m']))
+      per[i]['onwire'] = onwire
+      if per[i]['sock'] is not None:
+        per[i]['reads'] = list(per[i]['sock'].log)
+    try:
+      proxy.DispatcherClose()
+    except Exception:
+      pass
+    for sk in net.sockets:
+      sk.peer_send(b'', close=True)
+    loop.settle()
+  finally:
+    net.hold = False
+  return per
+
+
+def _run_conc(script):
+  loop = common.boot()
+  net = _install_net()
+  import scales.thrift.sink  # noqa
+  import scales.thrift.builder  # noqa
+  _ifaces()
+  _limit_memory()
+  ev, meta = [], []
+  iface = script['iface']
+  for group in script['groups']:
+    ref = _conc_round(loop, net, iface, group, False)
+    run = _conc_round(loop, net, iface, group, True)
+    for i, call in enumerate(group['calls']):
+      key = mkey(iface, call['m'])
+      ev.append({'e': 'Call', 'm': key, 'pos': call['pos'], 'kw': call['kw'],
+                 'bytes': list(ref[i]['sent']), 'srv': ref[i]['srv'], 'inflight': ref[i].get('onwire', 0)})
+      if ref[i]['stream'] is not None and run[i]['stream'] is not None:
+        ev.append({'e': 'Reply', 'm': key, 'stream': list(run[i]['stream']),
+                   'same_stream': 1 if run[i]['stream'] == ref[i]['stream'] else 0,
+                   'chunks': [k for (_r, k) in run[i]['reads']], 'out': run[i]['out'], 'ref': ref[i]['out'],
+                   'inflight': run[i].get('onwire', 0)})
+      meta.append({'iface': iface, 'srv': call['srv']['do'], 'form': call['form'], 'stack': 'full-concurrent',
+                   'proto': 'accel'})
+  return {'cfg': {'kind': 'conc'}, 'ev': ev, 'meta': meta, 'errors': [list(e[1:3]) for e in loop.errors][:3]}
 
 
 # =================================================================== chunk cases (direction A replays)
@@ -804,6 +1065,8 @@ def _run_chunks(script):
 def run_case(script):
   if script['kind'] == 'rpc':
     return _run_rpc(script)
+  if script['kind'] == 'conc':
+    return _run_conc(script)
   if script['kind'] == 'chunk':
     loop = common.boot()
     _install_net()
